@@ -34,6 +34,7 @@ THEOREMS = [
     "NakenVerif.C03.uf2_read_write",
     "NakenVerif.C03.ti_txt_read_encode",
     "NakenVerif.C03.ti_txt_low_high",
+    "NakenVerif.C03.amiga_roundtrip",
     "NakenVerif.FileIO.ElfProofs.decode_write",
     "NakenVerif.FileIO.ElfReadProofs.read_write",
     "NakenVerif.FileIO.chunks_flat",
@@ -64,8 +65,8 @@ MODELLED = ("write_hex.cpp (write_hex, write_hex_line: 16-byte buffer, flush at 
             "a negative offset, get_string_at_offset with char name[256], the .strtab search, the section loop with the "
             "EOF-bounded load and symbol loops, low/high arithmetic in 64 bits, the e_machine switch), read_uf2.cpp (read_block, magic "
             "numbers, the not-main-flash flag, the byte_count bound of e60359f, int address), read_ti_txt.cpp (the character state "
-            "machine: @ / q / hex digits / blanks / CR, uint32_t value and address, start / end)")
-NOT_MODELLED = ("write_amiga / write_macho and read_amiga / read_macho have no Lean "
+            "machine: @ / q / hex digits / blanks / CR, uint32_t value and address, start / end), write_amiga.cpp")
+NOT_MODELLED = ("write_macho and read_amiga / read_macho have no Lean "
                 "model: they are covered by the specification decoders of tools/fileio_spec.py applied to the real writers' output, "
                 "by the real write->read round trip and by process-level runs only "
                 "(differential + oracle level, not proof).  read_elf: fseek() to an offset above 2^40 (file-system dependent: ext4 "
@@ -82,7 +83,7 @@ TRUSTED_BASE = ["tools/fileio_spec.py (independent Python decoders for the eight
 FORMATS = ["hex", "srec", "bin", "wdc", "uf2", "elf", "amiga", "macho"]
 FILLER = {"bin", "elf", "uf2", "amiga", "macho"}        # formats that describe one contiguous range
 EXT = {"hex": "hex", "srec": "srec", "bin": "bin", "wdc": "wdc", "uf2": "uf2", "elf": "elf", "amiga": "out", "macho": "macho"}
-MODEL_WR = {"hex", "srec", "bin", "wdc", "uf2", "elf"}                # formats whose writer is modelled in Lean
+MODEL_WR = {"hex", "srec", "bin", "wdc", "uf2", "elf", "amiga"}                # formats whose writer is modelled in Lean
 
 
 def cpus_of(ctx):
@@ -510,8 +511,8 @@ def correspondence(ctx, corr):
         low = G.low_high(img)[0]
         extra = " %x" % low if fmt == "bin" else ""
         rl.append("rd %s %s %s%s" % (fmt, EXT[fmt], nvlib.hexs(data), extra))
-        if fmt in ("uf2", "elf"):
-            rl.pop()          # read_uf2 / read_elf: own streams below
+        if fmt in ("uf2", "elf", "amiga"):
+            rl.pop()          # read_uf2 / read_elf: own streams below; read_amiga is not modelled
             continue
         if fmt == "wdc":
             for _ in range(2):      # truncations and header damage
